@@ -456,7 +456,7 @@ func checkC13(c *Ctx) {
 							}
 						case *ssa.Return:
 							if (b2 == T || T.Dominates(b2)) && len(y.Results) >= 1 {
-								if v, isC := constInt(returnedValues(y)[0]); isC && intBits(y.Results[0].Type()) > 0 {
+								if v, isC := constInt(returnedValues(y)[0]); isC && intBits(returnedValues(y)[0].Type()) > 0 {
 									got[w] = v
 								}
 							}
